@@ -229,6 +229,13 @@ def check_damaged(t: str, facts: dict, stats: dict, root: str, *, cli: bool) -> 
     return out
 
 
+VALUE_POOL = [
+    '"v${major}.${minor}"', '"${src}/bin"', '"${toString (1 + 2)}"', '"a${b}c${d}"', "''\n  a ${b}\n  c\n''", "[ 1 (f x) ]", '{ a = "x${y}"; }', "x: x + 1",
+    '"plain"', "a.b or c", "./p/q.nix", "if a then b else c", "let a = 1; in a", "{ a, b ? 1 }: a", "with lib; [ a ]", "assert a; b", '"${-src}"', "f { x = 1; } [ 2 ]",
+    '"$${x}${y}"', "a // { b = 1; }", "(a: a) 1", "!a && b", '{ "q r" = 1; }', "rec { a = b; b = 1; }",
+]
+
+
 def classify_value(v: str) -> str:
     """ok / zero / many / error, by the independent reader."""
     d = reader.Doc(v)
@@ -301,7 +308,20 @@ def execute(case: dict):
         if case.get("value_faults") and not viols:
             from nix_manipulator import parse
 
-            for v in gen.BAD_VALUES + ["{ a = 1; } { b = 2; }", "1 # c\n2", "[ 1 2 ] ]", "", " ", "\n"]:
+            # ... and healthy VALUEs of many kinds damaged in one place (a character deleted, the text cut off, a
+            # delimiter inserted) - in particular inside string interpolations, which only a parser sees
+            damaged = []
+            for _ in range(10):
+                hv = rng.choice(VALUE_POOL)
+                r = rng.random()
+                pos = rng.randrange(len(hv))
+                if r < 0.45:
+                    damaged.append(hv[:pos] + hv[pos + 1:])
+                elif r < 0.7:
+                    damaged.append(hv[:pos])
+                else:
+                    damaged.append(hv[:pos] + rng.choice('"{}()[];$\'') + hv[pos:])
+            for v in gen.BAD_VALUES + ["{ a = 1; } { b = 2; }", "1 # c\n2", "[ 1 2 ] ]", "", " ", "\n"] + damaged:
                 cls = classify_value(v)
                 if cls == "ok":
                     continue
